@@ -115,17 +115,17 @@ func (r *ruleSelector) getRules(name string) (rules []*annotations.HttpRule) {
 	return rules
 }
 
-func (r *ruleSelector) setRules(rules []*annotations.HttpRule) {
+func (r *ruleSelector) setRules(rules []*annotations.HttpRule) error {
 	*r = ruleSelector{} // reset
 
-	var set func(r *ruleSelector, selector string)
+	var set func(r *ruleSelector, selector string) error
 	for _, rule := range rules {
-		set = func(r *ruleSelector, selector string) {
+		set = func(r *ruleSelector, selector string) error {
 			tag, name, _ := strings.Cut(selector, ".")
 			switch tag {
 			case "*":
 				if name != "" {
-					panic(fmt.Errorf("invalid selector %q", rule.GetSelector()))
+					return fmt.Errorf("invalid selector %q", rule.GetSelector())
 				}
 				r.rules = append(r.rules, rule)
 			case "":
@@ -140,12 +140,16 @@ func (r *ruleSelector) setRules(rules []*annotations.HttpRule) {
 				}
 				r.path[tag] = rs
 				r = rs
-				set(r, name)
+				return set(r, name)
 			}
+			return nil
 		}
 
-		set(r, rule.GetSelector())
+		if err := set(r, rule.GetSelector()); err != nil {
+			return err
+		}
 	}
+	return nil
 }
 
 type muxOptions struct {
@@ -159,6 +163,7 @@ type muxOptions struct {
 	codecsByName          map[string]Codec
 	compressors           map[string]Compressor
 	httprules             ruleSelector
+	err                   error // an option that could not be applied (NewMux returns it)
 	contentTypeOffers     []string
 	encodingTypeOffers    []string
 	maxReceiveMessageSize int
@@ -297,7 +302,7 @@ func ServiceConfigOption(sc *serviceconfig.Service) MuxOption {
 	return func(opts *muxOptions) {
 		opts.serviceConfig = sc
 		opts.httprules = ruleSelector{}
-		opts.httprules.setRules(sc.Http.GetRules())
+		opts.err = opts.httprules.setRules(sc.Http.GetRules())
 
 	}
 }
@@ -313,6 +318,9 @@ func NewMux(opts ...MuxOption) (*Mux, error) {
 	var muxOpts = defaultMuxOptions
 	for _, opt := range opts {
 		opt(&muxOpts)
+	}
+	if muxOpts.err != nil {
+		return nil, muxOpts.err
 	}
 
 	// Ensure codecs are set.
